@@ -568,6 +568,9 @@ class Grid(object):
                 byteorder = "I"
             fh.write("{0:<14} {1}\n".format("BYTEORDER", byteorder))
 
+            # No data value
+            fh.write("{0:<14} {1}\n".format("NODATA", self.nodata))
+
             # Name
             fh.write("{0:<14} {1}\n".format("NAME", self.name))
 
